@@ -615,6 +615,66 @@ def no_evaluation_in_generator_expressions(ctx):
 PARTIAL_ON_USER_VALUES = {'sorted', 'max', 'min', 'hash', 'sum'}
 
 
+def _may_be_tuple_at(u, node, prm):
+    """can control reach ``node`` when parameter prm holds a tuple?  Tests on ``type(prm)`` (after
+    the type-temp normal form) are decided for the case type(prm) is tuple; everything else is
+    assumed passable"""
+    from ..util import _terminates
+
+    def decide(t):
+        if isinstance(t, ast.BoolOp):
+            vals = [decide(v) for v in t.values]
+            if isinstance(t.op, ast.And):
+                return False if False in vals else (True if all(v is True for v in vals) else None)
+            return True if True in vals else (False if all(v is False for v in vals) else None)
+        if isinstance(t, ast.UnaryOp) and isinstance(t.op, ast.Not):
+            v = decide(t.operand)
+            return None if v is None else not v
+        if isinstance(t, ast.Compare) and len(t.ops) == 1 and norm(t.left) == 'type(%s)' % prm:
+            c, o = t.comparators[0], t.ops[0]
+            names = [x.id for x in (c.elts if isinstance(c, (ast.Tuple, ast.List, ast.Set)) else [c]) if isinstance(x, ast.Name)]
+            if isinstance(o, (ast.In, ast.Is, ast.Eq)):
+                return 'tuple' in names
+            if isinstance(o, (ast.NotIn, ast.IsNot, ast.NotEq)):
+                return 'tuple' not in names
+        return None
+
+    def search(stmts):
+        # -> True: node found and reachable; False: found but unreachable; None: not in here
+        for st in stmts:
+            if st is node or any(x is node for x in ast.walk(st)):
+                if st is node:
+                    return True
+                if isinstance(st, ast.If):
+                    v = decide(st.test)
+                    inb = any(x is node for s_ in st.body for x in ast.walk(s_))
+                    if v is not None and v != inb:
+                        return False
+                    return search(st.body if inb else st.orelse)
+                for f in ('body', 'orelse', 'finalbody'):
+                    blk = getattr(st, f, None)
+                    if isinstance(blk, list) and any(x is node for s_ in blk if isinstance(s_, ast.AST) for x in ast.walk(s_)):
+                        return search(blk)
+                for h in getattr(st, 'handlers', ()):
+                    if any(x is node for s_ in h.body for x in ast.walk(s_)):
+                        return search(h.body)
+                return True
+            # a guard clause before the node that always leaves for a tuple
+            if isinstance(st, ast.If) and decide(st.test) is True and _terminates(st.body):
+                return False
+        return None
+    r = search(u.node.body)
+    return r is not False
+
+
+def _is_text(e):
+    if isinstance(e, ast.Constant):
+        return isinstance(e.value, str)
+    if isinstance(e, ast.BinOp) and isinstance(e.op, ast.Add):
+        return _is_text(e.left) or _is_text(e.right)
+    return isinstance(e, ast.JoinedStr)
+
+
 @rule('C04.15')
 def error_construction_is_total(ctx):
     """a failure glom detects itself must surface as the documented GlomError subtype: the
@@ -648,6 +708,11 @@ def error_construction_is_total(ctx):
                     if isinstance(c, ast.Attribute) and c.attr in ('__name__', '__qualname__') and isinstance(c.value, ast.Name) \
                             and c.value.id in u.params[(1 if u.cls is not None else 0):]:
                         bad.append(norm(c))
+                    # ``'.. %r' % value`` with a bare user value on the right: a tuple there is taken for
+                    # the argument list (wrong arity -> TypeError); the value is wrapped, ``% (value,)``
+                    if isinstance(c, ast.BinOp) and isinstance(c.op, ast.Mod) and _is_text(c.left) and isinstance(c.right, ast.Name) \
+                            and c.right.id in u.params[(1 if u.cls is not None else 0):] and _may_be_tuple_at(u, r, c.right.id):
+                        bad.append('%% %s' % c.right.id)
             ctx.ob(not bad, u, 'the error is built without ordering / hashing user values: raise %s' % src(r.exc.func, 40),
                    '' if not bad else '%s can itself raise for arbitrary keys or targets and replace the error' % bad, node=r)
     if n < 20:
